@@ -2,14 +2,16 @@
    Model: Model/SrcLife.v.  `phase` is _dispatch_source_invoke2 (source.c:715-887) cut at its reads of dq_atomic_flags and at
    the client callouts, `wakeup_target` is _dispatch_source_wakeup (source.c:910-979), `gstep` is the interleaving model:
    cancel (from a thread / from the handler / from an item on the serial target queue), cancel_and_wait (first rmw loop,
-   try-lock, waiter CAS, futex), release, merge_data, event delivery and hang-up by the manager, activation, invoke on any
-   queue, one phase of the lock owner per step; any number of threads.  The rmw bodies on dq_atomic_flags and the DSF_*
+   try-lock, waiter CAS, futex), release, merge_data, event delivery and hang-up by the manager thread (two steps each: the
+   du_state update, then ds_pending_data + _dispatch_source_merge_evt, which reads du_state again; the manager does not
+   deliver while it invokes the source on the manager queue), activation, invoke on any queue, one phase of the lock owner
+   per step; any number of threads.  The rmw bodies on dq_atomic_flags and the DSF_*
    constants are Gen_srclife, regenerated from src/source.c.
    `reach k ev ca rg g`: g is reachable from the initial state of a source of kind k with event / cancel / registration
    handlers installed as ev / ca / rg, by ANY interleaving of those steps.  All theorems below are about every such g
    (Proofs/SrcLife_proofs.v: Inv g := GInv g /\ forall t, TInv g t, preserved by every step). *)
 From Coq Require Import ZArith Bool List.
-From Verif Require Import Word Conc Gen_consts Gen_srclife SrcLife SrcLife_phase_proofs SrcLife_proofs.
+From Verif Require Import Word Conc Gen_consts Gen_srclife SrcLife SrcLife_phase_proofs SrcLife_proofs SrcLifeR SrcLifeR_proofs.
 Import ListNotations.
 Local Open Scope Z_scope.
 
@@ -37,6 +39,21 @@ Print Assumptions C16_finalize_is_source.
    to the generated body refs_unregister_loop is not stated here: the current translator output for that loop treats the
    loop variable `oqf` as a free parameter (reported to the lead) *)
 
+
+(* tie: the program points of the model are the atomic sites of the source, in source order: _dispatch_source_invoke2 with its
+   inlined callees (43 sites, cut into the phases OA1 .. OP5), _dispatch_source_wakeup (13), dispatch_source_cancel,
+   dispatch_source_cancel_and_wait (17), finalize_unregistration and refs_unregister; regenerated from src/source.c on every
+   run, so an atomic operation added, dropped or moved in these functions breaks the equality *)
+Theorem C16_sites_match_source :
+  model_sites_invoke2 = f_dispatch_source_invoke2_sites /\ model_sites_wakeup = f_dispatch_source_wakeup_sites /\
+  model_sites_cancel = dispatch_source_cancel_sites /\ model_sites_caw = dispatch_source_cancel_and_wait_sites /\
+  rmwF = f_dispatch_source_refs_finalize_unregistration_sites /\ unreg_sites = f_dispatch_source_refs_unregister_sites /\
+  filter starts_with_flags_read invoke2_points = [OA1; OP1; OP2; OP3b; OP4b].
+Proof.
+  exact (conj sites_match_invoke2 (conj sites_match_wakeup (conj sites_match_cancel (conj sites_match_caw
+          (conj sites_match_finalize (conj sites_match_unregister flags_reading_points)))))).
+Qed.
+Print Assumptions C16_sites_match_source.
 
 (* the commit point: an event handler invocation starts only from OLatch; OLatch is entered only by the phase that reads the
    flags (source.c:792), on the target queue, and only if that read saw neither CANCELED nor RELEASED (and pending data);
@@ -68,12 +85,15 @@ Theorem C16_no_event_after_cancel_observed : forall k ev ca rg g, reach k ev ca 
 Proof. exact at_most_one_late_start. Qed.
 Print Assumptions C16_no_event_after_cancel_observed.
 
-(* the cancel handler is invoked at most once in any run; once its slot has been released it has been invoked exactly once
-   (unless the last reference was dropped on a source that was never cancelled: then it is disposed of, not called);
-   the final state (C16_converges) has the slot released *)
+(* the cancel handler is invoked at most once in any run; once its slot has been released on a cancelled source it has been
+   invoked exactly once, whether or not the last reference has been dropped meanwhile (cancel; release is the client idiom:
+   the handler still runs, once, before the source is disposed of); it is disposed of without a call only on a source whose
+   last reference was dropped and that was never cancelled, and such a source can never become cancelled; the final state
+   (C16_converges) has the slot released *)
 Theorem C16_cancel_handler_exactly_once : forall k ev ca rg g, reach k ev ca rg g ->
   0 <= ch_count g <= 1 /\ (h_ca (g_s g) = true -> ch_count g = 0) /\
-  (h_ca (g_s g) = false -> ch_set g = true -> released (fl (g_s g)) = false -> ch_count g = 1) /\
+  (h_ca (g_s g) = false -> ch_set g = true -> canceled (fl (g_s g)) = true -> ch_count g = 1) /\
+  (ch_disposed g = true -> released (fl (g_s g)) = true /\ canceled (fl (g_s g)) = false /\ ch_count g = 0) /\
   (ch_set g = false -> ch_count g = 0).
 Proof. exact cancel_handler_exactly_once. Qed.
 Print Assumptions C16_cancel_handler_exactly_once.
@@ -122,6 +142,27 @@ Theorem C16_deletion_wakes_everyone : forall k ev ca rg g t a g' acts,
 Proof. exact deletion_wakes_everyone. Qed.
 Print Assumptions C16_deletion_wakes_everyone.
 
+(* _dispatch_source_merge_evt's "event for an unregistered unote" finalize (source.c:1108-1118) never fires: between the
+   manager's update of du_state and its second read in merge_evt nobody unregisters a muxed unote (it is unregistered on the
+   manager queue only, source.c:788 as fixed by f0b02ae and :832, and the manager is busy), and timers are excluded by the
+   code.  With source.c:788 as it was (acknowledge the deferred delete on any queue) this is false: the stress harness
+   crashed with "Source finalized twice", harness/c16_hangup_confirm.c reproduces it deterministically. *)
+Theorem C16_event_delivery_never_finalizes : forall k ev ca rg g t g' acts,
+  reach k ev ca rg g -> gstep g t GEvMerge = Some (g', acts) -> acts = [].
+Proof. exact event_delivery_never_finalizes. Qed.
+Print Assumptions C16_event_delivery_never_finalizes.
+
+(* the global replay (Model/SrcLifeR.v, lib/props/c16r.py): the state the replay of a recorded round reports and judges is
+   SrcLife.grun of the acts the scheduler performed, hence a reachable state of the model whatever the scheduler did; and
+   the boolean invariant evaluated on it is true on every reachable state *)
+Theorem C16_replay_reach : forall k ev ca rg ts ord g,
+  replay_state k ev ca rg ts ord = Some g -> reach k ev ca rg g.
+Proof. exact replay_reach. Qed.
+Print Assumptions C16_replay_reach.
+Theorem C16_inv_b_sound : forall k ev ca rg g tids, reach k ev ca rg g -> inv_b tids g = true.
+Proof. exact inv_b_sound. Qed.
+Print Assumptions C16_inv_b_sound.
+
 (* convergence = confluence of the final state: whatever the history (cancel before activation, cancel twice, from the
    handler, cancel_and_wait by several threads, release, hang-up ...), a cancelled source on which _dispatch_source_wakeup
    has nothing more to ask for is in ONE final state: CANCELED|DELETED, no waiter, no NEEDS_EVENT, the three handler slots
@@ -151,7 +192,7 @@ Fixpoint drain (n : nat) (g : gst) (t : Z) : gst :=
   match n with O => g | S n' => match gstep g t (GPhase o1) with Some (g', _) => drain n' g' t | None => g end end.
 Definition inv (q : queue) (t : Z) (g : gst) := match gstep g t (GInvoke q) with Some (g', _) => drain 30 g' t | None => g end.
 Definition st (a : act) (t : Z) (g : gst) := match gstep g t a with Some (g', _) => g' | None => g end.
-Definition demo3 := drain 5 (st (GInvoke QTarget) 6 (st (GEvent true) 9 (inv QMgr 5 (st (GActivate o1) 1 (init_state K_FD true true false))))) 6.
+Definition demo3 := drain 5 (st (GInvoke QTarget) 6 (st GEvMerge 9 (st (GEvent true) 9 (inv QMgr 5 (st (GActivate o1) 1 (init_state K_FD true true false)))))) 6.
 Definition demo6 := inv QTarget 6 (inv QMgr 5 (drain 30 (st (GCancel CxThread) 2 demo3) 6)).
 Example C16_nonvacuous :
   o_pc demo3 = OLatch /\ canceled (fl (g_s demo3)) = false /\
